@@ -37,6 +37,7 @@ type snapshot struct {
 	n       int // flush number
 	batch   int // index of the batch during which the commit happened (-1: NewDBStore)
 	mid     bool
+	during  bool // taken while a submission was in progress (the batch counts as interrupted)
 	img     kvx.Image
 	file    string // Bolt: the file copied at the commit
 	tip     string
@@ -119,12 +120,13 @@ func HistoryVia(r *vh.Run, name string, t *chainx.Tree, ids *c02.IDs, decls map[
 	var snaps []*snapshot
 	var rig *c02.Rig
 	curBatch, inOp, storeOps := -1, false, 0
+	inSubmit := false
 	rec := &kvx.Rec{Inner: be.DB}
 	// under a write cache the commits that matter are those of the physical database: each of them
 	// is recorded as a commit point, and one Flush of the cache must issue exactly one
 	physSince := 0
 	takeSnap := func(n int, img kvx.Image) {
-		s := &snapshot{n: n, batch: curBatch, mid: inOp, img: img, ops: storeOps}
+		s := &snapshot{n: n, batch: curBatch, mid: inOp, during: inSubmit, img: img, ops: storeOps}
 		s.tip = c02.DurableLine(t, s.img)
 		if rig != nil {
 			s.tainted = rig.Tainted
@@ -145,7 +147,7 @@ func HistoryVia(r *vh.Run, name string, t *chainx.Tree, ids *c02.IDs, decls map[
 			physSince = 0
 			return
 		}
-		s := &snapshot{n: n, batch: curBatch, mid: inOp, img: be.Snapshot(), ops: storeOps}
+		s := &snapshot{n: n, batch: curBatch, mid: inOp, during: inSubmit, img: be.Snapshot(), ops: storeOps}
 		if be.CopyFile != nil {
 			s.file = filepath.Join(dir, fmt.Sprintf("commit%d.db", n))
 			if err := be.CopyFile(s.file); err != nil {
@@ -214,8 +216,20 @@ func HistoryVia(r *vh.Run, name string, t *chainx.Tree, ids *c02.IDs, decls map[
 		r.Add(c)
 		return
 	}
-	armed := false
+	armed, preArmed := false, false
 	rig.CommitMode = true
+	// no commit may reach the database from inside Store.AddState / Store.AddBlock: the loop of
+	// AddBlocks that stores headers and bodies is not a block boundary
+	callFlushes := 0
+	rig.OnCall = func(name string, done bool) {
+		if !done {
+			callFlushes = rec.Flushes + rec.FailedFlushes
+			return
+		}
+		if rec.Flushes+rec.FailedFlushes != callFlushes {
+			c.Oracle("commit-outside-block-boundary", "a commit reached the database from inside Store.%s (batch %d, %d store ops so far): commits are issued only at the end of ApplyBlock / RevertBlock and of a reorg", name, curBatch, storeOps)
+		}
+	}
 	if faultAt > 0 {
 		rig.ExpectedPanic = "injected commit failure"
 	}
@@ -223,6 +237,10 @@ func HistoryVia(r *vh.Run, name string, t *chainx.Tree, ids *c02.IDs, decls map[
 		inOp = true
 		storeOps++
 		armed = !noArm && (armAll || rng.Chance(1, 2))
+		if preArmed {
+			// the flush branch was already opened when the submission started (see below)
+			armed, preArmed = true, false
+		}
 		if armed {
 			rig.Node.Store.VerifForceFlushNext()
 		}
@@ -251,7 +269,16 @@ func HistoryVia(r *vh.Run, name string, t *chainx.Tree, ids *c02.IDs, decls map[
 	for i, batch := range sched {
 		curBatch = i
 		opsBefore := rig.Applies + rig.Reverts
+		if !noArm {
+			// a freshly opened store (lastFlush zero) and a store whose last commit is five seconds old
+			// take the flush branch at the very next opportunity: open it before the submission, so
+			// that whatever the manager does first — storing headers included — runs with it open
+			rig.Node.Store.VerifForceFlushNext()
+			preArmed = true
+		}
+		inSubmit = true
 		res := rig.SubmitVia(batch, via[i])
+		inSubmit = false
 		if injectedAt != "" && !crashed {
 			if res == "panic" && strings.Contains(rig.PanicMsg, "injected commit failure") {
 				// the store refused to go on without its commit: the process stops here, like at any
@@ -445,7 +472,7 @@ func reopen(c *vh.Case, t *chainx.Tree, ids *c02.IDs, decls map[int]*c02.Decl, o
 	}
 	// catch up: the batches from the interrupted one on
 	from := s.batch + 1
-	if s.mid {
+	if s.mid || s.during {
 		from = s.batch
 	}
 	if from < 0 {
